@@ -2,6 +2,7 @@ package rules
 
 import (
 	"go/ast"
+	"go/token"
 	"go/types"
 	"sort"
 
@@ -729,4 +730,79 @@ func aTypesNameIsNotItsIdentity(c *core.Ctx) {
 	}
 	c.Pass("object|tables-keyed-by-strings", "", sprintf("%d accesses of long-lived string-keyed tables in package object; none is keyed by a type's printed name", n))
 	c.Stat("string_keyed_table_accesses", n)
+}
+
+// ---------------------------------------------------------------------------
+// methodNamesComeBeforeItems (C16): a container that answers an attribute both
+// with its methods and with its items (m.keys, m.count) decides for the method
+// first: the look into the items stands behind the failing branch of every
+// comparison of the name with a method's name.  The other order makes an item
+// whose key is spelled like a method take the method's place - m.pop("a") calls
+// the item, or fails - for that one map only.
+func methodNamesComeBeforeItems(c *core.Ctx) {
+	p := c.P
+	n := 0
+	for _, fn := range repoFns(p, "object") {
+		if fn.Name() != "GetAttr" || fn.Signature.Recv() == nil || len(fn.Params) != 2 || !core.IsStringType(fn.Params[1].Type()) {
+			continue
+		}
+		recv, name := ssa.Value(fn.Params[0]), ssa.Value(fn.Params[1])
+		// the look into a map field of the receiver under the attribute's name
+		var lookups []*ssa.Lookup
+		// the comparisons of the name with constants, with the block of the failing branch
+		var failing []*ssa.BasicBlock
+		for _, b := range fn.Blocks {
+			for _, in := range b.Instrs {
+				switch x := in.(type) {
+				case *ssa.Lookup:
+					if x.Index != name {
+						continue
+					}
+					if u, ok := x.X.(*ssa.UnOp); ok {
+						if fa, ok := u.X.(*ssa.FieldAddr); ok {
+							// (the receiver may sit in a cell, when a closure captures it)
+							for _, o := range core.Origins(fa.X) {
+								if o == recv {
+									lookups = append(lookups, x)
+								}
+							}
+						}
+					}
+				case *ssa.BinOp:
+					if x.Op != token.EQL || x.Referrers() == nil {
+						continue
+					}
+					_, kx := x.X.(*ssa.Const)
+					_, ky := x.Y.(*ssa.Const)
+					if !((x.X == name && ky) || (x.Y == name && kx)) {
+						continue
+					}
+					for _, r := range *x.Referrers() {
+						if iff, ok := r.(*ssa.If); ok {
+							failing = append(failing, iff.Block().Succs[1])
+						}
+					}
+				}
+			}
+		}
+		if len(lookups) == 0 || len(failing) < 3 {
+			continue
+		}
+		for i, lk := range lookups {
+			n++
+			behind := 0
+			for _, f := range failing {
+				if f == lk.Block() || f.Dominates(lk.Block()) {
+					behind++
+				}
+			}
+			ok := behind == len(failing)
+			c.Check(ok, core.SSAName(fn)+"|items-consulted-after-the-method-names|"+itoa(i+1), p.Pos(lk.Pos()),
+				core.SSAName(fn)+" looks the attribute up among the items"+ife(ok, sprintf(" only after all %d comparisons with a method's name have failed", len(failing)), sprintf(" before %d of the %d comparisons with a method's name: an item with the key of a method is handed out in the method's place", len(failing)-behind, len(failing))))
+		}
+	}
+	if n == 0 {
+		core.Undecidedf("no container answers attributes from its items as well as with methods")
+	}
+	c.Stat("attribute_lookups_into_items", n)
 }
